@@ -33,6 +33,8 @@ import (
 type c20env struct {
 	replies   []chan error // one capacity-1 reply channel per submitted request
 	kinds     []int
+	afterUpd  []bool // submitted after the version update had been delivered
+	updated   bool
 	published []event.ManifestReceived
 	pubLeases []int
 	nleases   int
@@ -158,6 +160,7 @@ func (e *c20env) request(kind int) manifestRequest {
 	ch := make(chan error, 1)
 	e.replies = append(e.replies, ch)
 	e.kinds = append(e.kinds, kind)
+	e.afterUpd = append(e.afterUpd, e.updated)
 	mf := e.manifests[kind]
 	return manifestRequest{value: &submitRequest{Deployment: e.dep, Manifest: mf}, ch: ch, ctx: context.Background()}
 }
@@ -166,8 +169,26 @@ func c20oracle(e *c20env, terminated bool, idle bool) {
 	verif_Assert(!e.hang, "C20 the manifest manager never hangs")
 	if terminated || idle {
 		for i, ch := range e.replies {
-			_ = i
 			verif_Assert(len(ch) == 1, "C20 every manifest submission receives exactly one reply")
+			if len(ch) != 1 {
+				continue
+			}
+			r := <-ch
+			ch <- r
+			// version rule (C10): the expected version is the last update received, else the chain's
+			switch {
+			case r == nil:
+				verif_Assert(e.kinds[i] != 2, "C20 a structurally invalid manifest is never accepted")
+				if e.afterUpd[i] {
+					verif_Assert(e.kinds[i] == 1, "C10 after a version update only a manifest with the updated version is accepted")
+				}
+			case errors.Is(r, ErrManifestVersion):
+				if e.afterUpd[i] {
+					verif_Assert(e.kinds[i] != 1, "C10 a manifest matching the most recently announced version is not rejected for its version")
+				} else if !e.updated {
+					verif_Assert(e.kinds[i] != 0, "C10 a manifest matching the chain's version is not rejected for its version")
+				}
+			}
 		}
 	}
 	for i, ev := range e.published {
@@ -200,6 +221,7 @@ func c20symbolic(steps int) {
 	})
 	verif_EnvChan(m.updatech, "update", 1, func() interface{} {
 		verif_Pick("update", 1)
+		e.updated = true
 		return c20version(e.manifests[1])
 	})
 	verif_EnvFinal(m.lc.ShutdownRequest(), "shutdown", 1, func() interface{} { verif_Pick("shutdown", 1); return error(nil) })
@@ -277,6 +299,7 @@ func c20native() {
 			send(func() bool {
 				select {
 				case m.updatech <- v:
+					e.updated = true
 					return true
 				default:
 					return false
